@@ -57,7 +57,10 @@ NUM_POOL = [0, 1, -1, 2, 3, 5, 7, 9, 10, 11, 12, 99, 100, 101, 255, 999, 1000, 1
             "12", "99.95", "999.5", "1.5", "-7", "0.15", "100"]
 STR_POOL = ["", "a", "ab", "abc", "abcd", "abcde", "abcdef", "aaaa", "é日本x", b"abcd", b"ab", 12345, 1.5]
 SEQ_POOL = [[], [1], [1, 2], [1, 2, 3], [1, 2, 3, 4], [1, 1], [1, 1, 2, 2, 3], [1, 1.0, True], ["a", "a", "b"], (1, 2, 3, 4), (1, 1),
-            [[1], [1]], "1,2,3,4", "1,1,2", {1, 2, 3}, deque([1, 1, 2])]
+            [[1], [1]], "1,2,3,4", "1,1,2", {1, 2, 3}, deque([1, 1, 2]),
+            # equal items of different Python types (hashable next to unhashable, an enum member next to its value)
+            [bytearray(b"a"), b"a"], [b"a", bytearray(b"a")], [V.Tone.RED, V.Tone.RED.value], [V.Tone.RED.value, V.Tone.RED],
+            [{1, 2}, frozenset({1, 2})], [frozenset({1, 2}), {1, 2}, 3], (bytearray(b"a"), 1, b"a")]
 EXACT = {"int", "Decimal", "str", "list", "tuple"}
 
 
